@@ -19,6 +19,13 @@ type Val struct {
 	Loc  *Loc
 	Fn   *ssa.Function
 	Bind []Val
+	View *arrView // slice of an array that lives inside another object (no term; copy/len only)
+}
+
+// arrView is arr[lo:lo+n] of the array stored at loc.
+type arrView struct {
+	loc   *Loc
+	lo, n Term
 }
 
 // Loc designates a memory location: a heap component, a reference (and index
